@@ -50,7 +50,7 @@ def floors(tier):
                          "combo_ctl0_cal0": n // 8}}
 
 
-def gen_defn(rng, i, tier):
+def gen_defn(rng, i, tier, wraps=False):
     has_ctl, has_cal = bool(i & 1), bool(i & 2)
     if i % 8 >= 4 and (i // 8) % 2 == 0:
         # larger filters: 6-9 states, sensors with 5-7 readings (shallow expressions)
@@ -61,7 +61,7 @@ def gen_defn(rng, i, tier):
         return d
     return gen.program(rng, n_state=(1, 4), n_control=(1, 3) if has_ctl else (0, 0),
                        n_calib=(1, 3) if has_cal else (0, 0), n_sensor=(0, 3), n_reading=(1, 4),
-                       depth=2 if (tier == "quick" or rng.random() < 0.6) else 3, dt_names=("dt",))
+                       depth=2 if (tier == "quick" or rng.random() < 0.6) else 3, dt_names=("dt",), wraps=wraps)
 
 
 def compare_outputs(R, eb, defn, orc, pt, toks_f, sensor_toks, what):
